@@ -88,7 +88,8 @@ def build_path(sel, depth, lite=False, head=None):
     else:
         nparts = sel.choose(3, 'nparts') if head != 'none' else 1 + sel.choose(2, 'nparts')
     for i in range(nparts):
-        elems.append(build_part(sel, depth, lite or i > 0))
+        # only the first part may hold brackets (keeps the space enumerable)
+        elems.append(build_part(sel, depth if i == 0 else 0, lite or i > 0))
     return R.RRELPath(elems)
 
 
@@ -98,7 +99,7 @@ def build_sequence(sel, depth, lite=False, head=None):
     import textx.scoping.rrel as R
     paths = [build_path(sel, depth, lite, head)]
     if sel.flag('second-path'):
-        paths.append(build_path(sel, depth, lite=True))
+        paths.append(build_path(sel, 0, lite=True))
     return R.RRELSequence(paths)
 
 
